@@ -1,6 +1,9 @@
 import PhyVerif.Driver.Json
+import PhyVerif.Driver.Rat
 import PhyVerif.Model.C01
 import PhyVerif.Spec.C01
+import PhyVerif.Model.C01b
+import PhyVerif.Spec.C01b
 namespace PhyVerif.Driver
 open Lean PhyVerif PhyVerif.C01
 
@@ -36,41 +39,79 @@ def mkParts (lens : List Nat) (nch : Nat) : List (List (List Nat)) :=
 
 def jMat (m : List (List Nat)) : Json := jList jNats m
 
+/-- the recording handed to `get_ephys_reader`, as the harness observed it: `parts` (rows per file), `nch`,
+and per backend the file sizes in bytes / the `.ch` metadata; cell id = row * nch + col -/
+def asSource (j : Json) : R (Source (List Nat)) := do
+  let be ← getStr j "backend"
+  let lens ← getNats j "parts"; let nch ← getNat j "nch"
+  let dtype ← getStr j "dtype"
+  let rate ← fld j "rate" >>= asRat
+  let parts := mkParts lens nch
+  let arrs := parts.map fun p => ({ rows := p, ncols := nch, dtype := dtype } : Arr (List Nat))
+  match be with
+  | "flat" =>
+    let fs ← getNats j "fsizes"
+    if fs.length ≠ parts.length then .error "fsizes: one size per part" else
+    pure (.flat (List.zipWith (fun f p => ⟨f, p⟩) fs parts) (← getNat j "offset") (← getNat j "itemsize")
+      nch dtype rate)
+  | "array" =>
+    match arrs with
+    | [a] => pure (.array a rate)
+    | _ => .error "array: one part"
+  | "npy" => pure (.npy arrs rate)
+  | "cbin" =>
+    let tables ← getNatss j "tables"
+    if tables.length ≠ parts.length then .error "tables: one chunk table per part" else
+    pure (.cbin (List.zipWith (fun t p => (({ nChannels := nch, dtype := dtype, rate := rate, chunkBounds := t } : CMeta), p))
+      tables parts))
+  | _ => .error s!"backend {be}"
+
+def jBackend : Backend → Json
+  | .flat => "flat" | .array => "array" | .npy => "npy" | .cbin => "cbin"
+
+def jShape (p : Nat × Nat) : Json := Json.arr #[jNat p.1, jNat p.2]
+
+def jOutcome : Outcome (List (List Nat)) → Json
+  | .ok m => jMat m
+  | .refused => Json.str "refused"
+  | .raised => Json.null
+
+def runC01b (j : Json) : R Json := do
+  let src ← asSource j
+  let qs ← fld j "items" >>= asArr
+  let rd := build src
+  let A := src.concat
+  let res ← qs.mapM fun q => do
+    let l ← asArr q
+    -- [item, cols] or [item, cols, [c1, c2, ...]]: the index applied to the derived reader reader[:, c1][:, c2]...
+    let (ji, jc, pre) ← match l with
+      | [ji, jc] => pure (ji, jc, ([] : List ColSel))
+      | [ji, jc, jp] => do
+        let pre ← asList asColSel jp
+        pure (ji, jc, pre)
+      | _ => .error "items: [[item, cols] | [item, cols, [pre...]], ...]"
+    let item ← asItem ji
+    let cols ← asColSel jc
+    let ops := pre ++ [cols]
+    let m := match rd with
+      | some r => jOutcome (if pre.isEmpty then getItemB r item cols else getItemOps r item ops)
+      | none => Json.null
+    let sp := (npRows A item).map fun rows => rows.map (applyCols ops)
+    pure (Json.mkObj [("model", m), ("spec", jOpt jMat sp)])
+  let attrs := match rd with
+    | none => Json.null
+    | some r => Json.mkObj [("backend", jBackend r.backend), ("n_samples", jOpt jNat r.nSamples),
+        ("shape", jOpt jShape r.shape), ("n_channels", jNat r.nChannels), ("dtype", Json.str r.dtype),
+        ("duration", jOpt jRat r.duration), ("part_bounds", jNats r.partBounds)]
+  let n := A.length
+  let spec := Json.mkObj [("backend", jBackend src.backend), ("n_samples", jNat n),
+    ("shape", jShape (n, src.width)), ("n_channels", jNat src.width), ("dtype", Json.str src.dtype),
+    ("duration", if src.rate = 0 then Json.null else jRat ((n : Rat) / src.rate))]
+  pure (Json.mkObj [("res", Json.arr res.toArray), ("attrs", attrs), ("spec_attrs", spec)])
+
 def runC01 (op : String) (j : Json) : R Json := do
   match op with
-  | "getitem" =>
-    let lens ← getNats j "parts"; let nch ← getNat j "nch"
-    let item ← fld j "item" >>= asItem
-    let cols ← match j.getObjVal? "cols" with
-      | .ok v => asColSel v
-      | .error _ => pure ColSel.all
-    let parts := mkParts lens nch
-    let m := getItem parts item cols
-    let sp := (npRows parts.flatten item).map fun rows => rows.map (selCols cols)
-    pure (Json.mkObj [("model", jOpt jMat m), ("spec", jOpt jMat sp),
-                      ("n_samples", jOpt jNat (bounds parts).getLast?),
-                      ("part_bounds", jNats (bounds parts))])
-  | "getitems" =>
-    let lens ← getNats j "parts"; let nch ← getNat j "nch"
-    let parts := mkParts lens nch
-    let qs ← fld j "items" >>= asArr
-    let res ← qs.mapM fun q => do
-      let l ← asArr q
-      match l with
-      | [ji, jc] =>
-        let item ← asItem ji
-        let cols ← asColSel jc
-        let m := getItem parts item cols
-        let sp := (npRows parts.flatten item).map fun rows => rows.map (selCols cols)
-        pure (Json.mkObj [("model", jOpt jMat m), ("spec", jOpt jMat sp)])
-      | _ => .error "items: [[item, cols], ...]"
-    pure (Json.mkObj [("res", Json.arr res.toArray),
-                      ("n_samples", jOpt jNat (bounds parts).getLast?),
-                      ("part_bounds", jNats (bounds parts))])
-  | "memmap_rows" =>
-    let fs ← getNat j "fsize"; let off ← getNat j "offset"; let isz ← getNat j "itemsize"
-    let nch ← getNat j "nch"
-    pure (Json.mkObj [("model", jNat (memmapRows fs off isz nch))])
+  | "reader" => runC01b j
   | _ => .error s!"C01: unknown op {op}"
 
 end PhyVerif.Driver
